@@ -8,6 +8,29 @@
 (* are used (a) by the implementation-shaped specs Mutex.tla / RWMutex.tla, which fire them *)
 (* at their API-visible actions, and (b) by CsyncPTrace.tla, which fires them from events   *)
 (* recorded from the real code.  A Mutex is the special case "every call is a writer".      *)
+(*                                                                                          *)
+(* What the logged events bound (the critical sections themselves are not logged):          *)
+(*   B1  an acquisition has certainly happened by its logged return ("ret ok") and cannot   *)
+(*       have happened before its logged call;                                              *)
+(*   B2  a release has certainly happened by its logged return ("relret") and cannot have   *)
+(*       happened before its logged call ("relcall"); between the two it may or may not;    *)
+(*   B3  a call whose return is not logged yet may already have taken its decision          *)
+(*       (acquired, failed, given up): only its logged return tells which;                  *)
+(*   B4  a context is not cancelled before its logged "cancel" (logged before cancel() is    *)
+(*       called); a cancelled waiter may still be granted the lock (cancel racing with a    *)
+(*       hand-off) and then returns ok.                                                     *)
+(* Executions come in two granularities (event "cfg", variable fine):                        *)
+(*   coarse (fine = FALSE): a critical section of the lock and everything its goroutine does *)
+(*       up to its next critical section or block - in particular the logged return - is    *)
+(*       ONE controller step, so a logged return IS the linearization point of its call:    *)
+(*       B3 does not arise (a pending call has not decided).                                *)
+(*   fine (fine = TRUE; sched.Exec.ParkUnl): the END of a critical section is a park point  *)
+(*       too.  Other goroutines run between a call's decisive critical section and its      *)
+(*       logged return, and between a waiter's predicate section and its select.  Only      *)
+(*       B1-B4 hold.  The conditions below say, each, which bounds they rest on; where the  *)
+(*       fine interleavings make a condition undecidable from the events it is weakened     *)
+(*       (never strengthened) for fine executions.  Unknown granularity (no cfg event)      *)
+(*       is treated as fine.                                                                *)
 EXTENDS Naturals, FiniteSets, Sequences, TLC
 
 VARIABLES
@@ -17,17 +40,32 @@ VARIABLES
     canc,   \* call ids whose context has been cancelled
     rels,   \* call id -> number of calls of its release function
     relin,  \* number of release calls in progress (called, not yet returned)
+    fine,   \* granularity of this execution (see above)
+    solo,   \* pending calls during whose whole life so far nobody held the lock, nobody else was
+            \* calling and no release was in progress
+    passed, \* (fine only) write-waiters that a reader which started behind them has overtaken while
+            \* their own return was not logged yet
+    owed,   \* (fine only) the members of passed whose context was not cancelled when they were overtaken
     bad     \* names of event-level conditions that failed (sticky)
 
-pvars == <<st, md, ahead, canc, rels, relin, bad>>
+pvars == <<st, md, ahead, canc, rels, relin, fine, solo, passed, owed, bad>>
 
-PInit ==
+PInitF(f) ==
     /\ st = <<>> /\ md = <<>> /\ ahead = <<>> /\ rels = <<>>
     /\ canc = {} /\ relin = 0 /\ bad = {}
+    /\ fine = f /\ solo = {} /\ passed = {} /\ owed = {}
+PInit == PInitF(TRUE)
 
-PReset ==
+PResetF(f) ==
     /\ st' = <<>> /\ md' = <<>> /\ ahead' = <<>> /\ rels' = <<>>
     /\ canc' = {} /\ relin' = 0 /\ bad' = {}
+    /\ fine' = f /\ solo' = {} /\ passed' = {} /\ owed' = {}
+PReset == PResetF(TRUE)
+
+\* The driver tells the granularity of the execution (first event after reset).
+PCfg(f) ==
+    /\ fine' = f
+    /\ UNCHANGED <<st, md, ahead, canc, rels, relin, solo, passed, owed, bad>>
 
 Ids      == DOMAIN st
 Held     == {i \in Ids : st[i] = "held"}
@@ -44,14 +82,18 @@ Grantable(b, B) ==
 -----------------------------------------------------------------------------
 (* Events *)
 
-\* A call starts.  blkW: the calls observed blocked inside Lock at this moment.
+\* A call starts.  blk: the calls observed durably blocked inside Lock at this moment (in their
+\* select, nothing ready: registered waiters at either granularity).
 PCall(i, m, blk) ==
     /\ st' = (i :> "pending") @@ st
     /\ md' = (i :> m) @@ md
     /\ rels' = (i :> 0) @@ rels
     /\ ahead' = (i :> IF m = "r" THEN {w \in blk : w \in Ids /\ md[w] = "w" /\ st[w] = "pending"} ELSE {}) @@ ahead
+    \* i is alone if nobody may hold the lock now (B1-B3: no holder, no pending call that may have
+    \* acquired, no release that may not have happened yet); any later call ends everybody's solitude
+    /\ solo' = IF Held = {} /\ Pending = {} /\ relin = 0 THEN {i} ELSE {}
     /\ bad' = bad \cup (IF i \in Ids THEN {"Harness"} ELSE {})
-    /\ UNCHANGED <<canc, relin>>
+    /\ UNCHANGED <<canc, relin, fine, passed, owed>>
 
 \* A call returns.  res: "ok" | "false" (TryLock) | "canceled".  nr, nw: the harness-owned
 \* occupancy counters after this caller incremented them (only meaningful for "ok").
@@ -59,78 +101,119 @@ PRet(i, res, nr, nw) ==
     LET nst == IF res = "ok" THEN "held" ELSE IF res = "false" THEN "failed" ELSE "canceled"
         st2 == [st EXCEPT ![i] = nst]
         held2 == {j \in Ids : st2[j] = "held"}
+        \* writers observed waiting when read call i started and whose return is not logged yet
+        over == IF res = "ok" /\ md[i] = "r" THEN {w \in ahead[i] : st[w] = "pending"} ELSE {}
     IN
     /\ st' = st2
+    /\ solo' = solo \ {i}
+    /\ passed' = (passed \ {i}) \cup (IF fine THEN over ELSE {})
+    /\ owed' = (owed \ {i}) \cup (IF fine THEN over \ canc ELSE {})
     /\ bad' = bad
         \cup (IF i \notin Ids \/ st[i] # "pending" THEN {"Harness"} ELSE {})
+        \* B4: the cancel event is logged before the context is cancelled
         \cup (IF res = "canceled" /\ i \notin canc THEN {"SpuriousCancel"} ELSE {})
-        \* writer preference: a read acquire that started while a writer was waiting is not
-        \* granted before that writer acquired or gave up
-        \cup (IF res = "ok" /\ md[i] = "r" /\ \E w \in ahead[i] : st[w] = "pending"
-              THEN {"WriterPref"} ELSE {})
-        \* a TryLock that fails although nobody holds the lock, nobody else is calling and no release
-        \* is in progress: something other than a successful acquire changed who holds the lock
-        \cup (IF res = "false" /\ Held = {} /\ Pending = {i} /\ relin = 0 THEN {"Phantom"} ELSE {})
+        \* Writer preference: a read acquire that started while a writer was waiting is not granted
+        \* before that writer acquired or gave up.
+        \*   coarse: a pending writer has done neither (its decisive section and its return are one
+        \*           step), so a reader that returns ok while a writer of ahead[i] is pending overtook it.
+        \*   fine:   (B3) a pending writer w may have decided already: it may have acquired (then the
+        \*           reader was granted while w holds - a breach of exclusion, C01, not of this clause -
+        \*           or w is about to return) or, if cancelled, given up.  Undecidable at this event, so
+        \*           nothing is reported here; w is remembered (passed; owed if its context was not
+        \*           cancelled yet, i.e. it had certainly not given up) and the clause is judged when
+        \*           the events settle it:
+        \*             - w is still blocked at a later quiescent observation (PQuiet): it had neither
+        \*               acquired nor given up when the reader was granted;
+        \*             - w (in owed) returns canceled: it never acquired, and gave up only after the
+        \*               reader's return.
+        \*           If w returns ok the events cannot tell whether the reader was granted before w
+        \*           acquired (this clause) or while w held (C01): not reported.  Weaker than coarse.
+        \cup (IF ~fine /\ over # {} THEN {"WriterPref"} ELSE {})
+        \cup (IF res = "canceled" /\ i \in owed THEN {"WriterPref"} ELSE {})
+        \* A TryLock that fails although nobody can hold the lock: something other than a successful
+        \* acquire changed who holds the lock.
+        \*   coarse: the failing critical section is the return's own step: nobody holds, nobody else is
+        \*           calling and no release is in progress NOW.
+        \*   fine:   the decision was taken anywhere between call and return (B1/B3): the same must have
+        \*           been true during the whole call (solo).  Weaker than the coarse reading.
+        \cup (IF res = "false" /\ (IF fine THEN i \in solo ELSE Held = {} /\ Pending = {i} /\ relin = 0)
+              THEN {"Phantom"} ELSE {})
+        \* the occupancy counters are harness-owned and updated at the very points the events are logged
+        \* (after the return, before the release call): they agree with Held at either granularity
         \cup (IF res = "ok" /\ (nr # Cardinality({j \in held2 : md[j] = "r"})
                                \/ nw # Cardinality({j \in held2 : md[j] = "w"}))
               THEN {"Occ"} ELSE {})
-    /\ UNCHANGED <<md, ahead, canc, rels, relin>>
+    /\ UNCHANGED <<md, ahead, canc, rels, relin, fine>>
 
-\* The release function of call i is about to be called (the first such call ends the hold).
+\* The release function of call i is about to be called (the first such call ends the hold: B2,
+\* the release cannot have happened earlier).
 PRelCall(i) ==
     /\ rels' = [rels EXCEPT ![i] = @ + 1]
     /\ st' = IF st[i] = "held" THEN [st EXCEPT ![i] = "released"] ELSE st
     /\ bad' = bad \cup (IF st[i] \notin {"held", "released"} THEN {"Harness"} ELSE {})
     /\ relin' = relin + 1
-    /\ UNCHANGED <<md, ahead, canc>>
+    /\ UNCHANGED <<md, ahead, canc, fine, solo, passed, owed>>
 
 \* a repeated release: called and returned at once (X specs: one step)
 PRelNoop(i) ==
     /\ rels' = [rels EXCEPT ![i] = @ + 1]
     /\ bad' = bad \cup (IF st[i] # "released" THEN {"Harness"} ELSE {})
-    /\ UNCHANGED <<st, md, ahead, canc, relin>>
+    /\ UNCHANGED <<st, md, ahead, canc, relin, fine, solo, passed, owed>>
 
-\* ... and has returned
+\* ... and has returned (B2: the release has certainly happened)
 PRelRet(i) ==
     /\ relin' = IF relin > 0 THEN relin - 1 ELSE 0
-    /\ UNCHANGED <<st, md, ahead, canc, rels, bad>>
+    /\ UNCHANGED <<st, md, ahead, canc, rels, fine, solo, passed, owed, bad>>
 
 \* A documented call panicked (e.g. "unlock of unlocked MutexLocker" when two callers hold a Mutex)
 PPanic ==
     /\ bad' = bad \cup {"Panic"}
     /\ relin' = 0
-    /\ UNCHANGED <<st, md, ahead, canc, rels>>
+    /\ UNCHANGED <<st, md, ahead, canc, rels, fine, solo, passed, owed>>
 
-\* The context of call i is cancelled.
+\* The context of call i is cancelled (logged before cancel() is called: B4).
 PCancel(i) ==
     /\ canc' = canc \cup {i}
-    /\ UNCHANGED <<st, md, ahead, rels, relin, bad>>
+    /\ UNCHANGED <<st, md, ahead, rels, relin, fine, solo, passed, owed, bad>>
 
 \* What must hold at a point where no library-internal step is possible and exactly the
-\* calls in B are blocked inside Lock.
+\* calls in B are blocked inside Lock.  The observation is made when no goroutine is parked at any
+\* hook (at either granularity: in fine executions that includes the ends of critical sections):
+\* every call and release that was started has run to its logged return or to a durable block in
+\* its select, so here - and only here - the monitor's state is exact (Pending = B, relin = 0,
+\* Held = the real holders) and no bound is needed.
 QuietOK(B) ==
     /\ \A b \in B : ~Grantable(b, B)      \* a grantable waiter would have been granted
     /\ B \cap canc = {}                   \* a cancelled waiter has returned
 
 QuietBad(B) ==
     (IF \E b \in B : Grantable(b, B) THEN {"Stuck"} ELSE {})
+    \* (fine) an overtaken writer that is still waiting: see WriterPref in PRet
+    \cup (IF B \cap passed # {} THEN {"WriterPref"} ELSE {})
     \cup (IF B \cap canc # {} THEN {"CancelStuck"} ELSE {})
     \cup (IF B \subseteq Pending THEN {} ELSE {"Harness"})
 
 PQuiet(B) ==
     /\ bad' = bad \cup QuietBad(B)
-    /\ UNCHANGED <<st, md, ahead, canc, rels, relin>>
+    /\ UNCHANGED <<st, md, ahead, canc, rels, relin, fine, solo, passed, owed>>
 
 \* Final probe: with nobody holding and nobody calling, TryLock(write) and TryLock(read) succeed
-\* ("afterwards the lock behaves as if that call had never been made").
+\* ("afterwards the lock behaves as if that call had never been made").  The probe is made by the
+\* controller itself (never parked) after every call and release has returned: call, decision and
+\* return are one event at either granularity.
 PProbe(ok) ==
     /\ bad' = bad \cup (IF Held = {} /\ Pending = {} /\ relin = 0 /\ ~ok THEN {"Residue", "Phantom"} ELSE {})
-    /\ UNCHANGED <<st, md, ahead, canc, rels, relin>>
+    /\ UNCHANGED <<st, md, ahead, canc, rels, relin, fine, solo, passed, owed>>
 
 -----------------------------------------------------------------------------
 (* The properties *)
 
-\* C01: one writer or many readers, only between acquire and first release.
+\* C01: one writer or many readers, only between acquire and first release.  Held is the set of
+\* calls between their logged "ret ok" and their first logged "relcall": by B1/B2 every member
+\* really holds the lock at that moment (acquired by the return, not released before the release
+\* call), so two members that exclude each other are a real overlap at either granularity.  (The
+\* converse does not hold in fine executions - a real overlap may end before it is logged - but
+\* that only makes the condition miss, never fire wrongly.)
 Excl == Cardinality(HeldW) <= 1 /\ (HeldW # {} => HeldR = {})
 \* exclusion broken after some waiter was cancelled: the lock does not behave as if that call
 \* had never been made (C02's reading of the same observation)
